@@ -53,6 +53,19 @@ func main() {
 		os.Exit(runDump(pos[0], *oblFilter, *repo, *verif))
 	case "list":
 		os.Exit(runList(*repo, *verif))
+	case "ssa":
+		P, err := loadProgram(*repo, *verif)
+		if err != nil {
+			fmt.Fprintln(os.Stderr, err)
+			os.Exit(1)
+		}
+		for _, n := range pos {
+			if fn := P.funcs[n]; fn != nil {
+				fn.WriteTo(os.Stdout)
+			} else {
+				fmt.Println("no function", n)
+			}
+		}
 	default:
 		usage()
 	}
